@@ -239,7 +239,7 @@ def run(tier='quick', seed=0, nproc=16):
           for bt in ('Buildable', 'Config', 'Partial'):
             jobs.append((shape, tuple(amap.get(i, 0) for i in range(len(shape))), target, msub, bt))
   res = common.pmap(check_case, gen.shuffled(jobs), nproc)
-  res.append(tag_iter_case())
+  res.append(common.guard(tag_iter_case))
   return common.merge(
       res, 'layerb.prop_C15',
       rule='DAG shapes <= 3 nodes over Config/Partial/list/dict x assignments of callables '
